@@ -529,6 +529,9 @@ func instImmediateBranchMeta(interp *Interpreter, instr *InstrMeta) (ExitReason,
 	if reason != ExitContinue {
 		return reason, instr.PC
 	}
+	if !branchCondition {
+		return reason, instr.PC + ProgramCounter(instr.SkipLen) + 1
+	}
 
 	return reason, newPC
 }
@@ -1153,6 +1156,9 @@ func instBranchMeta(interp *Interpreter, instr *InstrMeta) (ExitReason, ProgramC
 	if reason != ExitContinue {
 		pvmLogger.Errorf("instBranchMeta branch error at pc: %d, opcode: %s", instr.PC, zeta[opcode(instr.Opcode)])
 		return ExitReason(reason), instr.PC
+	}
+	if !branchCondition {
+		return reason, instr.PC + ProgramCounter(instr.SkipLen) + 1
 	}
 	return reason, newPC
 }
